@@ -258,6 +258,10 @@ func (s *redisServer) execGet(w *bufio.Writer, key []byte) error {
 	if val == nil || !val.Found {
 		return writeNil(w)
 	}
+	if val.Value == nil {
+		// An existing key with a zero-length value is the empty bulk string, not nil.
+		return writeBulk(w, []byte{})
+	}
 	return writeBulk(w, val.Value)
 }
 
@@ -377,6 +381,9 @@ func (s *redisServer) execMGet(w *bufio.Writer, keys [][]byte) error {
 			continue
 		}
 		results[i] = val.Value
+		if results[i] == nil {
+			results[i] = []byte{}
+		}
 	}
 	return writeArray(w, results)
 }
